@@ -215,7 +215,7 @@ func run(c *lib.Ctx) error {
 						ato = a.LoopMS/M + (segMS-a.LoopMS/M)/2 // between the segment durations of two adaptation sets
 					}
 				}
-				cfg = lib.TLCfg{StartS: []int64{0, 30}[rng.Intn(2)], Snr: -1, Tsbd: []int64{-1, 10, 20}[rng.Intn(3)], Mode: modes[rng.Intn(2)], AtoMS: ato, Extra: []string{"periods_30/", "periods_60/"}[rng.Intn(2)]}
+				cfg = lib.TLCfg{StartS: []int64{0, 30}[rng.Intn(2)], Snr: -1, Tsbd: []int64{-1, 10, 20}[rng.Intn(3)], Mode: modes[[]int{0, 1, 2, 0, 1}[ai%5]], AtoMS: ato, Extra: []string{"periods_30/", "periods_60/"}[rng.Intn(2)]}
 				if 60000%segMS != 0 {
 					cfg.Extra = "periods_30/"
 				}
